@@ -418,6 +418,61 @@ BEGIN { one = 1; g = 7; G["k"] = 7; G[1, 2] = 7; NR = 7; $0 = "7 7 7"; r = f(H, 
 			}
 		}
 	}
+	// compile-time treatment of CONSTANT operands (the compiler turns a constant integral subscript into its decimal
+	// string and a constant integral field index into FieldInt): a literal must behave exactly like a variable holding
+	// the same number, under every CONVFMT in force when the subscript is evaluated, in every subscript context
+	{
+		lits := []string{"0", "7", "0.123", "1.5", "2.75", "0.126", "1e6", "100000", "1e15", "1e18", "9223372036854775807",
+			"9223372036854775808", "1e19", "1e30", "1e300", "0.1", "3.0", "1e-5", "123456789.5", "1e999"}
+		fmts := []string{"", "%.2g", "%.3f", "%d", "%.10g", "%5.1f"}
+		ctxs := []struct{ name, body string }{
+			{"set-get", `a[%[1]s] = "x"; k = %[2]s; print (k in a), length(a), a[k]; for (j in a) print "key", j`},
+			{"get", `k = %[2]s; a[k] = "x"; print a[%[1]s], length(a); for (j in a) print "key", j`},
+			{"in", `k = %[2]s; a[k] = "x"; print (%[1]s in a), length(a)`},
+			{"delete", `k = %[2]s; a[k] = "x"; delete a[%[1]s]; print length(a)`},
+			{"aug", `k = %[2]s; a[k] = 5; a[%[1]s] += 10; print a[k], length(a)`},
+			{"incr", `k = %[2]s; a[k] = 5; a[%[1]s]++; ++a[%[1]s]; print a[k], length(a)`},
+			{"multi", `k = %[2]s; a[7, k] = "x"; print ((7, %[1]s) in a), length(a); for (j in a) { split(j, q, SUBSEP); print q[1] ":" q[2] }`},
+			{"multi-first", `k = %[2]s; a[k, "z"] = "x"; a[%[1]s, "z"] = "y"; print length(a); for (j in a) { split(j, q, SUBSEP); print q[1] ":" q[2] }`},
+			{"local-array", `k = %[2]s; f(a, k); print length(a); for (j in a) print "key", j`},
+			{"split-elem", `k = %[2]s; n = split("p q", a); a[%[1]s] = "x"; print ((k) in a), length(a)`},
+		}
+		cnt := 0
+		for _, lit := range lits {
+			for _, cf := range fmts {
+				for _, c := range ctxs {
+					cnt++
+					if o.Tier != "thorough" && cnt%2 != int(o.Seed%2) {
+						continue
+					}
+					pre := ""
+					if cf != "" {
+						pre = fmt.Sprintf("CONVFMT = %q; ", cf)
+					}
+					mk := func(sub string) string {
+						return "function f(R, v) { R[" + sub + "] = 1; R[v] = 2 }\nBEGIN { " + pre + fmt.Sprintf(c.body, sub, lit) + " }"
+					}
+					// the variable spelling of the literal: a global assigned in the same program
+					vsub := "kk"
+					varProg := "function f(R, v) { R[kk] = 1; R[v] = 2 }\nBEGIN { kk = " + lit + "; " + pre + fmt.Sprintf(c.body, vsub, lit) + " }"
+					check("constant-subscript:"+c.name, mk(lit), map[string]string{
+						"via-variable": varProg,
+						"paren":        mk("(" + lit + ")"),
+						"plus-zero":    mk(lit + " + 0"),
+					})
+					rep.Count("constant-subscript-cases")
+				}
+			}
+		}
+		// constant field indexes
+		for _, lit := range []string{"0", "1", "2", "3.0", "1.9", "2.5", "0.5", "1e0", "7"} {
+			mk := func(ix string) string {
+				return fmt.Sprintf(`{ kk = %s; print $%s; $%s = "w"; print; print NF; $%s++; print; x = $%s; print x }`, lit, ix, ix, ix, ix)
+			}
+			check("constant-field-index", mk(lit), map[string]string{"via-variable": mk("kk"), "paren": mk("(" + lit + ")")})
+			rep.Count("constant-field-cases")
+		}
+	}
 	// the one known divergence between a chain and its regrouping (conversion happens after ALL operands are evaluated)
 	check("concat-chain-convfmt-side-effect",
 		`function f() { CONVFMT = "%.2g"; return "" } BEGIN { a = 0.123456789; s = a "x" f(); print s }`,
